@@ -1091,7 +1091,112 @@ func c02ArgUseShadow(v reflect.Value) bool {
 	return found
 }
 
+// c02LetOnlyBlock: a block statement consisting only of let/const declarations in which an initialiser mentions a
+// name the block declares (K-C02-7: optimizeStmt drops the declarations and keeps the initialisers).
+func c02LetOnlyBlock(v reflect.Value) bool {
+	found := false
+	var mentions func(reflect.Value, map[string]bool)
+	mentions = func(v reflect.Value, out map[string]bool) {
+		switch v.Kind() {
+		case reflect.Interface:
+			if !v.IsNil() {
+				mentions(v.Elem(), out)
+			}
+		case reflect.Ptr:
+			if v.IsNil() {
+				return
+			}
+			switch n := v.Interface().(type) {
+			case *pjs.Scope:
+				return
+			case *pjs.Var:
+				out[c02VarName(n)] = true
+				return
+			}
+			mentions(v.Elem(), out)
+		case reflect.Struct:
+			if v.Type() == c02ScopeType {
+				return
+			}
+			for i := 0; i < v.NumField(); i++ {
+				if v.Type().Field(i).PkgPath == "" {
+					mentions(v.Field(i), out)
+				}
+			}
+		case reflect.Slice:
+			if v.Type().Elem().Kind() != reflect.Uint8 {
+				for i := 0; i < v.Len(); i++ {
+					mentions(v.Index(i), out)
+				}
+			}
+		}
+	}
+	var rec func(reflect.Value)
+	rec = func(v reflect.Value) {
+		if found {
+			return
+		}
+		switch v.Kind() {
+		case reflect.Interface:
+			if !v.IsNil() {
+				rec(v.Elem())
+			}
+		case reflect.Ptr:
+			if v.IsNil() {
+				return
+			}
+			switch n := v.Interface().(type) {
+			case *pjs.Scope, *pjs.Var:
+				return
+			case *pjs.BlockStmt:
+				only := len(n.List) > 0
+				var declared []string
+				used := map[string]bool{}
+				for _, st := range n.List {
+					d, ok := st.(*pjs.VarDecl)
+					if !ok || d.TokenType == pjs.VarToken {
+						only = false
+						break
+					}
+					for _, it := range d.List {
+						c02BindingNames(it.Binding, &declared)
+						if it.Default != nil {
+							mentions(reflect.ValueOf(&it.Default).Elem(), used)
+						}
+					}
+				}
+				if only {
+					for _, d := range declared {
+						if used[d] {
+							found = true
+						}
+					}
+				}
+			}
+			rec(v.Elem())
+		case reflect.Struct:
+			if v.Type() == c02ScopeType {
+				return
+			}
+			for i := 0; i < v.NumField(); i++ {
+				if v.Type().Field(i).PkgPath == "" {
+					rec(v.Field(i))
+				}
+			}
+		case reflect.Slice:
+			if v.Type().Elem().Kind() != reflect.Uint8 {
+				for i := 0; i < v.Len(); i++ {
+					rec(v.Index(i))
+				}
+			}
+		}
+	}
+	rec(v)
+	return found
+}
+
 type c02Trig struct {
+	letOnlyBlock bool // K-C02-7
 	elseFlatten  bool // K-C02-1
 	argUseShadow bool // K-C02-6
 	topLevelWith bool // K-C02-4
@@ -1104,7 +1209,7 @@ func c02Triggers(src string) c02Trig {
 		return c02Trig{parseErr: err}
 	}
 	return c02Trig{elseFlatten: c02ElseFlatten(reflect.ValueOf(ast.BlockStmt.List)), topLevelWith: ast.BlockStmt.Scope.HasWith,
-		argUseShadow: c02ArgUseShadow(reflect.ValueOf(ast.BlockStmt.List))}
+		argUseShadow: c02ArgUseShadow(reflect.ValueOf(ast.BlockStmt.List)), letOnlyBlock: c02LetOnlyBlock(reflect.ValueOf(ast.BlockStmt.List))}
 }
 
 // ---------------------------------------------------------------- the runner
@@ -1134,6 +1239,14 @@ func init() {
 	register("C02", func(c *Ctx) error {
 		if c.Replay != "" {
 			return c02Replay(c)
+		}
+		// h.NewRNG makes the streams of neighbouring seeds shifted copies of each other (state = seed*γ + k,
+		// step = +γ); every random choice still derives from VERIF_SEED, through a finalising mix.
+		{
+			z := c.Seed*0x9E3779B97F4A7C15 + 0xC02C02C02
+			z = (z ^ (z >> 30)) * 0xBF58476D1CE4E5B9
+			z = (z ^ (z >> 27)) * 0x94D049BB133111EB
+			c.Rng = &h.RNG{S: z ^ (z >> 31)}
 		}
 		nprog := c.N(2000, 30000)
 		if v, err := strconv.Atoi(os.Getenv("C02_N")); err == nil { // debugging aid
@@ -1230,6 +1343,7 @@ func c02RunAll(c *Ctx, cases []*c02Case) error {
 	if err != nil {
 		return err
 	}
+	ndiff := 0
 	for i, rf := range refs {
 		ev := rf.ev
 		key := fmt.Sprintf("%s before=%v uses=%v args=%d undeclared=%v rename=%v", rf.what, c02Trunc(ev.Before), c02TruncI(ev.Uses), ev.NumFuncArgs, c02Trunc(ev.Undeclared), ev.Rename)
@@ -1258,6 +1372,9 @@ func c02RunAll(c *Ctx, cases []*c02Case) error {
 			want = append(want, []byte(strconv.Itoa(ev.Order[j])), []byte(ev.After[j]))
 		}
 		if !c15EqLists(got, want) {
+			if ndiff++; ndiff > 8 { // leave room in the report for failing inputs
+				continue
+			}
 			what := "model.c02.renameScope"
 			if len(got) > 0 && string(got[0]) != "1" {
 				what = "sort order reported by the hook is not a valid descending-by-uses permutation"
@@ -1361,6 +1478,8 @@ func c02RunAll(c *Ctx, cases []*c02Case) error {
 			known = "K-C02-5"
 		case cs.trig.argUseShadow:
 			known = "K-C02-6"
+		case cs.trig.letOnlyBlock:
+			known = "K-C02-7"
 		}
 		stP.Tag("class=" + cs.class)
 		if known != "" {
